@@ -101,7 +101,36 @@ class Interp(object):
             for k in range(nbytes):
                 b[off + k] = (val >> (8 * k)) & 0xff
 
+    def load_symbolic(self, ptr, nbytes, where):
+        """bit-level mode: load through an address with k symbolic offset bits = selection among the 2^k candidate
+        cells (every candidate must be in bounds); constant tables become LUT nodes, tables of LUT values compose"""
+        A = T.AIG
+        g = A.G
+        bits = ptr.off.bits
+        sel = [(i, l) for i, l in enumerate(bits) if l > 1]
+        base = sum(l << i for i, l in enumerate(bits) if l <= 1)
+        if base >> 63:
+            base -= 1 << 64
+        if len(sel) > 10:
+            raise Unsupported("address with %d symbolic bits at %s" % (len(sel), where))
+        self.observations += 1
+        cands = []
+        for x in range(1 << len(sel)):
+            off = base + sum(1 << i for j, (i, _) in enumerate(sel) if (x >> j) & 1)
+            v = self.load_bytes(Ptr(ptr.obj, off), nbytes, where)    # bounds-checked
+            if isinstance(v, (Ptr, FnPtr)):
+                raise Unsupported("pointer table indexed by symbolic value at " + where)
+            cands.append(v)
+        w = 8 * nbytes
+        sl = [l for _, l in sel]
+        if all(not isinstance(v, T.Term) for v in cands) and g.affine:
+            return A.mkv(g.lut_bits(sl, cands, w))
+        cb = [A.bits_of(v, w) for v in cands]
+        return A.mkv([g.mux_select(sl, [c[j] for c in cb]) for j in range(w)])
+
     def load_bytes(self, ptr, nbytes, where=""):
+        if T.AIG is not None and isinstance(ptr, Ptr) and isinstance(ptr.off, T.AIG.AV):
+            return self.load_symbolic(ptr, nbytes, where)
         off = self.addr(ptr, nbytes, where, False)
         o = self.objs[ptr.obj]
         b = o.bytes
@@ -209,10 +238,25 @@ class Interp(object):
                 continue
             res = {}
             models = []
+            # random simulation first: a polarity seen in simulation is satisfiable without asking the solver
+            import random
+            sv, smask = A.simulate(g, 2, random.Random(7))
+            sl = sv[l >> 1] ^ (smask if l & 1 else 0)
+            ok_pat = smask
+            for al in self.assume_lits:
+                if al > 1:
+                    ok_pat &= sv[al >> 1] ^ (smask if al & 1 else 0)
+            seen1, seen0 = bool(sl & ok_pat), bool((sl ^ smask) & ok_pat)
             for pol in (0, 1):
+                if (pol == 1 and seen1) or (pol == 0 and seen0):
+                    res[pol] = "sat"
+                    want = sl if pol else (sl ^ smask)
+                    bit = ((want & ok_pat) & -(want & ok_pat)).bit_length() - 1
+                    models.append({g.names[k]: bool((sv[k] >> bit) & 1) for k in g.inputs})
+                    continue
                 t0 = time.time()
                 nv, cl, vm = A.to_cnf(g, list(self.assume_lits) + [l ^ 1 ^ pol])
-                r, mdl = equiv.kissat(nv, cl, 60, self.sat_dir)
+                r, mdl = equiv.kissat(nv, cl, 25, self.sat_dir)
                 self.solver_time += time.time() - t0
                 self.sat_calls += 1
                 res[pol] = r
@@ -225,7 +269,14 @@ class Interp(object):
             elif res[0] == "unsat" and res[1] == "unsat":
                 raise Unsupported("assumptions unsatisfiable at %s" % where)
             elif "unknown" in res.values():
-                raise Unsupported("solver timeout on %s at %s" % (kind, where))
+                # undecided: hand a few concrete inputs to the caller, which re-executes both sides on them and reports
+                # a violation only if the outputs really differ (otherwise the obligation stays inconclusive)
+                import random
+                rnd = random.Random(1)
+                for _ in range(3):
+                    models.append({g.names[k]: bool(rnd.getrandbits(1)) for k in g.inputs})
+                raise Violation("symbolic-control", where, "solver timeout deciding %s (not shown to be fixed by the public shape)" % kind,
+                                model=models)
             else:
                 raise Violation("symbolic-control", where, "%s is not determined by the public shape (depends on symbolic input)" % kind,
                                 model=models)
